@@ -18,7 +18,7 @@ CHECKS = {
         text="For each configuration (1 qubit, qutrit; thorough: 2 qubits, qubit x qutrit) every conversion between vec / density / POVM "
              "matrices / HS / Choi / process matrix / Kraus / computational-basis forms is executed on fully symbolic parameters and z3 "
              "decides, over the whole box |x|<=1e3, agreement with the defining formula, agreement of the alternative implementations and "
-             "inverse-after-forward = identity (tolerance 1e-8). Bounded (configurations, box), not a proof.",
+             "inverse-after-forward = identity (tolerance 1e-8). Every composite system under test is created after a sibling system of the same shape with another basis has been built and exercised in the same process (no state shared between systems). Bounded (configurations, box), not a proof.",
         design_ref="DESIGN.md 3/C02"),
     "C01": dict(
         technique="symbolic execution of the real verdict methods with symbolic parameters AND symbolic tolerance; eigen-solvers replaced by a spectral parametrisation; z3 (QF_LRA/NRA) verdict per path",
@@ -39,7 +39,7 @@ CHECKS = {
         technique="symbolic execution of the real projection methods (spectral parametrisation for eigh, uninterpreted eigh for obj/var congruence) + z3 (QF_LRA/NRA) verdict per path",
         category="other",
         text="Equality projections (affine code): for all x in |x|<=1e3 the result satisfies the mathematical constraint exactly and x-P(x) is orthogonal to the constraint's null space "
-             "(=> nearest point), idempotent, fixes feasible points, operand and argument arrays untouched, object-level == variable-level under both flags, closures == methods. "
+             "(=> nearest point), idempotent, fixes feasible points, operand and argument arrays untouched, object-level == variable-level under both flags, closures == methods; measurement processes also with multi-axis outcome shapes (1,2), (2,2) (thorough (2,1), (3,2)). "
              "Inequality projections: inputs V diag(w) V† with symbolic spectrum: output == vec(V max(w,0) V†), idempotent, fixes PSD inputs, variable-level agreement; variational "
              "inequality against a superset of the PSD cone at 1 qubit (polynomial inequality, NRA). Bounded by configurations / frame library.",
         design_ref="DESIGN.md 3/C04"),
@@ -65,21 +65,21 @@ CHECKS = {
         text="For 2-3 (thorough 4) subsystems of dimension 2/3 in every permutation of subsystem names, with one factor symbolic at a time (all factors symbolic for pairs): the result's "
              "operator equals the Kronecker product of the factors in ascending name order (states, POVMs with pairwise different outcome counts and multi-index layout per nums_local_outcomes, "
              "gates via HS, measurement processes via shape), independent of argument order/grouping; qutrit->2-qubit embedding of states, POVMs (symbolic) and a one-parameter family of "
-             "non-unitary gates (spectral parametrisation) preserves trace preservation and statistics of embedded inputs.",
+             "non-unitary gates (spectral parametrisation) preserves trace preservation and statistics of embedded inputs; a one-parameter measurement process whose outcomes have different Kraus counts likewise.",
         design_ref="DESIGN.md 3/C07"),
     "C08": dict(
         technique="symbolic execution of the real tomography classes (calc_matA/vecB, generate_prob_dists_sequence -> Experiment -> compose_qoperations) with the unknown object symbolic + z3 (LRA/NRA) against Born-rule references",
         category="other",
         text="For QST/POVMT/QPT/QMPT, both parametrisations, 1 qubit (qutrit thorough; qutrit QMPT in quick), tester sets with mixed outcome counts and schedule lists 'all' / permuted / repeated / subsets: "
              "A x + b equals the Born-rule probabilities in (schedule, outcome) order for ALL variable vectors x; the executed circuits equal the model for all objects on the equality constraint with "
-             "probabilities >= 1e-3; one column per variable; full column rank decided over all unit directions for the complete tester sets.",
+             "probabilities >= 1e-3; one column per variable; full column rank decided over all unit directions for the complete tester sets. Tester sets include POVMs with elements of unequal trace and outcome counts != dimension, and 2-qubit QST/POVMT models.",
         design_ref="DESIGN.md 3/C08"),
     "C09": dict(
         technique="symbolic execution of the real LinearEstimator with symbolic true object / symbolic data (concrete tester sets) + z3 (QF_LRA)",
         category="other",
         text="For the four tomography types, both parametrisations, complete and over-complete 1-qubit tester sets (qutrit thorough): exact distributions of a symbolic object give back that object for ALL "
              "objects and independently of the (symbolic integer) sample counts; for ALL data vectors in [-2,2]^n (incl. non-normalised) the estimate satisfies the normal equations A^T(Av+b-f)=0; "
-             "sequence estimation equals single estimation element-wise. inv(A^T A) is concrete LAPACK on the concrete tester model.",
+             "sequence estimation equals single estimation element-wise; the same estimator instance used on a sibling tomography first (no state carried over); testers with elements of unequal trace / outcome count != dimension. inv(A^T A) is concrete LAPACK on the concrete tester model.",
         design_ref="DESIGN.md 3/C09"),
     "C10": dict(
         technique="symbolic execution of the real estimators / algorithm configuration with uninterpreted constraint projections, loss and gradient + z3 (QF_UFLRA) congruence; end-to-end run with real projections under the spectral parametrisation",
@@ -111,7 +111,7 @@ CHECKS = {
         text="Every ordered pair (thorough: triples on a reduced set) of 26 public operations (conversions, verdicts, projections, composition, tensor, copies, probability "
              "calculation, tomography construction, loss evaluation ...) on one shared composite system and object pool with symbolic parameters: after every step every pool object's "
              "parameters are unchanged, and afterwards every probe returns what it returns on a freshly built pool. Copies are independent of in-place overwrites of the original; Povm stores "
-             "private read-only arrays; basis tables are read-only; a loss object re-configured (dataset / weighting mode sequences of length <=3) equals a fresh loss for every x. "
+             "private read-only arrays; basis tables are read-only; symbolic empirical distributions (entries below the 1e-8 replacement threshold reachable) handed to the data-taking operations (replace_prob_dist, covariance, Fisher matrix, linear estimate, losses incl. inverse-covariance modes) are unchanged afterwards; a loss object re-configured (dataset / weighting mode sequences of length <=3) equals a fresh loss for every x. "
              "Bounded by history length 2 (3) and the operation list; caches keyed by anything else are outside.",
         design_ref="DESIGN.md 3/C13"),
     "C14": dict(
@@ -119,16 +119,15 @@ CHECKS = {
         category="other",
         text="_random_number_to_data / generate_data_from_prob_dist: for every probability vector the validator accepts (exact zeros, sum deficit up to 9e-14) and every draw in [0,1) the "
              "outcome is in range, has non-zero probability and is the inverse-CDF image (n<=4 outcomes, N<=3 draws; thorough n<=6, N<=4). calc_empi_dist_sequence on symbolic integer data "
-             "(L<=4, thorough 5; K<=2 prefixes): counts/num_sum, non-negative, sums to one, raises only under the documented conditions. Multinomial route with rvs replaced by its contract. "
-             "Seed data-flow: with an integer seed the output depends on that seed's stream only, equal seeds consume equal draws, None uses the global stream, a shared generator advances. "
+             "(L<=4, thorough 5; K<=2 prefixes): counts/num_sum, non-negative, sums to one, raises only under the documented conditions. Multinomial route with rvs replaced by its contract; every returned (n, distribution) of Experiment / tomography entry points carries the requested sample size for its (step, schedule) position (unequal sizes). "
+             "Seed data-flow: with an integer seed the output depends on that seed's stream only, equal seeds consume equal draws, None uses the global stream, a shared generator advances; CrossHair on the real to_stream with a SYMBOLIC integer seed in [0,2^32): always a new generator over MT19937(seed). "
              "NOT claimed: anything about MT19937/PCG bit streams or scipy's multinomial sampler (C code).",
         design_ref="DESIGN.md 3/C14"),
     "C18": dict(
         technique="symbolic execution of the real effective-Lindbladian code on symbolic H / J / K / jump matrices + z3 (polynomial identities, spectral parametrisation of K for verdicts and projection)",
         category="other",
-        text="generate_effective_lindbladian_from_{h,hk,hjk,k} and from jump operators: action on every basis element equals the GKSL right-hand side (1 qubit; thorough qutrit / 2 qubits for the "
-             "linear obligations); calc_h_mat / calc_j_mat / calc_k_mat extraction round-trips; fast (sparse-table) == slow; is_tp <=> trace functional annihilates the generator; is_cp <=> K >= -atol "
-             "with K = V diag(w) V^dagger symbolic w; inequality projection replaces K by its positive part and keeps H, J; variables <-> generator with the implied first row ZERO. "
+        text="generate_effective_lindbladian_from_{h,hk,hjk,k} and from jump operators: action on every basis element equals the GKSL right-hand side (1 qubit; thorough qutrit for the builders / 2 qubits for fast==slow and the Hamiltonian part); calc_h_mat / calc_j_mat / calc_k_mat extraction round-trips; fast (sparse-table) == slow; is_tp <=> trace functional annihilates the generator; is_cp <=> K >= -atol "
+             "with K = V diag(w) V^dagger symbolic w; inequality projection replaces K by its positive part and keeps H, J (diagonal and complex frame; thorough all frames); variables <-> generator with the implied first row ZERO. "
              "NOT claimed: expm-based to_gate / from_gate (C kernel) beyond concrete translator validation.",
         design_ref="DESIGN.md 3/C18"),
     "C19": dict(
@@ -157,7 +156,7 @@ CHECKS = {
         category="other",
         text="Index maps: all serial/multi indices symbolic for every shape with <=3 variables of 1..4 values (thorough 4 of 1..5) and, with CrossHair, symbolic shape entries; "
              "MultinomialDistribution constructor / marginalize / conditionalize / __getitem__ / validate_prob_dist on symbolic probability tensors (incl. sub-threshold entries) with "
-             "joint = marginal x conditional decided as polynomial identities. Bounded by the shapes listed in the evidence.",
+             "joint = marginal x conditional decided as polynomial identities, conditioning variables also listed in non-ascending order. Bounded by the shapes listed in the evidence; CrossHair with four symbolic shape entries only for values 1..3.",
         design_ref="DESIGN.md 3/C16"),
     "C20": dict(
         technique="path exploration of the real validation code with symbolic integer indices (unbounded) and forked kind selectors + z3 (QF_LIA) verdict 'accepted <=> 15-line spec' per path",
